@@ -45,6 +45,9 @@ func (r *BasicPublicTokenRequest) Marshal() []byte {
 }
 
 func (r *BasicPublicTokenRequest) Unmarshal(data []byte) bool {
+	// Drop any cached encoding of the value held before
+	r.raw = nil
+
 	s := cryptobyte.String(data)
 
 	var tokenType uint16
